@@ -52,6 +52,25 @@ theorem take_drop_slice (l : List Nat) (b e : Nat) (hbe : b ≤ e) (he : e ≤ l
     rw [List.drop_drop]; congr 1; omega
   rw [this, List.take_append_drop, List.take_append_drop]
 
+/-- `Line.Insert` of text without NUL runes at a position inside the line -/
+theorem insert_spec (l : Line) (p : Int) (v : List Nat) (hz : ∀ c ∈ v, c ≠ 0) (h0 : 0 ≤ p) (h1 : p ≤ len l) :
+    insert l p v = .ok (l.take p.toNat ++ v ++ l.drop p.toNat) := by
+  unfold insert
+  simp only [stripZeros_noZero _ hz, bind, Except.bind, pure, Except.pure]
+  have hn1 : ¬ (p < 0 ∨ p > len l) := by omega
+  simp only [hn1, if_false]
+  by_cases hl : len l = 0
+  · have : l = [] := by unfold len at hl; exact List.length_eq_zero_iff.mp (by omega)
+    subst this
+    simp [hl]
+  · simp only [hl, if_false]
+    by_cases hlt : p < len l
+    · simp only [hlt, if_true, from_ok l p h0 h1, upto_ok l p h0 h1]
+    · simp only [hlt, if_false]
+      have : l.length ≤ p.toNat := by unfold len at hlt h1; omega
+      rw [List.take_of_length_le this, List.drop_of_length_le this]
+      simp
+
 /-- C16 core: kill `[b, e)` then yank the removed text at `b` restores the line. -/
 theorem cut_insert_id (l : Line) (b e : Int) (hb : 0 ≤ b) (hbe : b ≤ e) (he : e ≤ len l)
     (hnz : ∀ c ∈ l, c ≠ 0) :
